@@ -431,6 +431,13 @@ WITNESSES = [
     [B('a'), D('class', 'K', [B('a'), D('class', 'L', [U('a')])])],
     # ... and a comprehension inside the nested class
     [B('a'), D('class', 'K', [B('a'), D('class', 'L', [{'k': 'comp', 'var': 'b', 'x': 'a'}])])],
+    # a method / lambda of a class nested in a class: BOTH enclosing classes are skipped -- control
+    [B('a'), D('class', 'K', [B('a'), D('class', 'L', [D('function', 'f', [U('a')]),
+                                                       {'k': 'call', 'x': 'f', 'n': 0},
+                                                       {'k': 'lambda', 'params': [], 'x': 'a'}])])],
+    [B('a'), D('function', 'g', [B('a'), D('class', 'K', [B('a'), D('class', 'L', [
+        B('b'), D('class', 'K', [D('function', 'f', [U('a'), U('b')]), {'k': 'call', 'x': 'f', 'n': 0}])])])]),
+     {'k': 'call', 'x': 'g', 'n': 0}],
     # method sees ... (class scopes skipped: fine) -- control
     [B('a'), D('class', 'K', [B('a'), D('function', 'f', [U('a')]), {'k': 'call', 'x': 'f', 'n': 0}])],
     # class-body use before class-level binding, enclosing function binds the name
